@@ -192,6 +192,9 @@ func (e *Engine) constVal(st *State, c *ssa.Const) *Val {
 func (e *Engine) funcConst(st *State, fn *ssa.Function) string {
 	name := "fn_" + mangle(fn.String())
 	st.declare(name, sFunc)
+	if f := not(eq(name, "nil_func")); !st.asserted[f] {
+		st.assume(f) // a function constant is never the nil func value
+	}
 	return name
 }
 
